@@ -26,20 +26,21 @@ CONSTANTS EP,           \* endpoint names
 VARIABLES engine,       \* which proxy engine this stack runs
           status,       \* [EP -> endpoint status in the repository]
           down,         \* [EP -> BOOLEAN]  backend listener closed (connection refused)
+          models,       \* [EP -> set of model names in the endpoint's latest listing]
           ebFail, ebOpen,   \* olla engine breaker per endpoint: consecutive failures, open?
           rq,           \* [arrived request ids -> per-request record]
           gauge,        \* [EP -> Nat]  in-flight attempts (stats.Collector activeConnections)
           cnt,          \* [EP -> [ok, fail]] per-endpoint attempt counters (stats.Collector)
           scn
 
-vars == <<engine, status, down, ebFail, ebOpen, rq, gauge, cnt, scn>>
+vars == <<engine, status, down, models, ebFail, ebOpen, rq, gauge, cnt, scn>>
 
 None == "none"
 TokenLen == 11   \* bytes of one body token "[e1:1:0000]"
 PreConn   == {"reset_pre"}                       \* connection-level failure, nothing delivered
 PreOther  == {"close_pre", "garbage"}            \* nothing delivered, not classed as connection error
 Post      == {"hdr_then_reset", "reset_after", "close_after"}   \* response started, then the backend died
-Answered  == {"ok", "http"}                      \* complete response (any status)
+Answered  == {"ok", "http", "http_big", "http_alt"}   \* complete response (any status)
 Routable(s) == s \in {"healthy", "busy", "warming"}
 
 Reqs == DOMAIN rq
@@ -53,6 +54,7 @@ NewReq(cands, route) ==
 Init == /\ engine \in Engines
         /\ status = [e \in EP |-> "healthy"]
         /\ down = [e \in EP |-> FALSE]
+        /\ models = [e \in EP |-> {"m1"}]
         /\ ebFail = [e \in EP |-> 0] /\ ebOpen = [e \in EP |-> FALSE]
         /\ rq = <<>>
         /\ gauge = [e \in EP |-> 0]
@@ -62,17 +64,18 @@ Init == /\ engine \in Engines
 -----------------------------------------------------------------------------
 (* Environment *)
 SetDown(e, d) == /\ down' = [down EXCEPT ![e] = d] /\ down[e] # d
-                 /\ UNCHANGED <<engine, status, ebFail, ebOpen, rq, gauge, cnt>>
+                 /\ UNCHANGED <<engine, status, models, ebFail, ebOpen, rq, gauge, cnt>>
 \* a health round stored status s for e (see HealthSched for how s is derived)
 HealthStore(e, s) == /\ status' = [status EXCEPT ![e] = s]
-                     /\ UNCHANGED <<engine, down, ebFail, ebOpen, rq, gauge, cnt>>
+                     /\ UNCHANGED <<engine, down, models, ebFail, ebOpen, rq, gauge, cnt>>
 
 (* Olla *)
-\* the request arrives: candidate snapshot = endpoints whose stored status is exactly healthy
-Arrive(r, route) ==
+\* the request arrives: candidate snapshot = endpoints whose stored status is exactly healthy and
+\* whose latest listing contains the requested model (strict routing, the assembled server's mode)
+Arrive(r, route, model) ==
     /\ r \notin Reqs
-    /\ rq' = (r :> NewReq({e \in EP : status[e] = "healthy"}, route)) @@ rq
-    /\ UNCHANGED <<engine, status, down, ebFail, ebOpen, gauge, cnt>>
+    /\ rq' = (r :> NewReq({e \in EP : status[e] = "healthy" /\ model \in models[e]}, route)) @@ rq
+    /\ UNCHANGED <<engine, status, down, models, ebFail, ebOpen, gauge, cnt>>
 
 EBRecord(e, ok) ==
     IF engine # "olla" THEN UNCHANGED <<ebFail, ebOpen>>
@@ -93,7 +96,7 @@ AttemptStart(r, e, kind, pst, pn, pk, pb, sig) ==
                                          !.att = @ + 1, !.kind = kind, !.pst = pst, !.pn = pn, !.pk = pk, !.pb = pb,
                                          !.sig = sig]]
     /\ gauge' = [gauge EXCEPT ![e] = @ + 1]
-    /\ UNCHANGED <<engine, status, down, ebFail, ebOpen, cnt>>
+    /\ UNCHANGED <<engine, status, down, models, ebFail, ebOpen, cnt>>
 
 \* how the attempt ends is decided by the plan
 AttemptEnd(r) ==
@@ -120,7 +123,7 @@ AttemptEnd(r) ==
                        /\ UNCHANGED status
                  /\ EBRecord(e, FALSE)
                  /\ cnt' = [cnt EXCEPT ![e].fail = @ + 1]
-    /\ UNCHANGED <<engine, down>>
+    /\ UNCHANGED <<engine, down, models>>
 
 \* an attempt on an endpoint whose listener is closed: connection refused, the backend sees nothing
 Refused(r, e) ==
@@ -130,19 +133,19 @@ Refused(r, e) ==
     /\ status' = [status EXCEPT ![e] = "offline"]
     /\ EBRecord(e, FALSE)
     /\ cnt' = [cnt EXCEPT ![e].fail = @ + 1]
-    /\ UNCHANGED <<engine, down, gauge>>
+    /\ UNCHANGED <<engine, down, models, gauge>>
 
 \* olla engine: the endpoint's circuit is open -> skipped, the request goes on (C04)
 BreakerSkip(r, e) ==
     /\ engine = "olla" /\ r \in Reqs /\ rq[r].phase = "choosing" /\ e \in Untried(r) /\ ebOpen[e]
     /\ rq' = [rq EXCEPT ![r] = [@ EXCEPT !.skipped = @ \cup {e}]]
-    /\ UNCHANGED <<engine, status, down, ebFail, ebOpen, gauge, cnt>>
+    /\ UNCHANGED <<engine, status, down, models, ebFail, ebOpen, gauge, cnt>>
 
 \* the request fails only when every candidate has been tried or skipped (C04)
 GiveUp(r) ==
     /\ r \in Reqs /\ rq[r].phase = "choosing" /\ Untried(r) = {}
     /\ rq' = [rq EXCEPT ![r] = [@ EXCEPT !.phase = "failed"]]
-    /\ UNCHANGED <<engine, status, down, ebFail, ebOpen, gauge, cnt>>
+    /\ UNCHANGED <<engine, status, down, models, ebFail, ebOpen, gauge, cnt>>
 
 (* What the client must see, as a function of the request's final state *)
 RespKind(r) == CASE rq[r].phase = "responded" -> "full"
@@ -150,39 +153,47 @@ RespKind(r) == CASE rq[r].phase = "responded" -> "full"
                  [] rq[r].phase = "failed"    -> "error"
                  [] OTHER -> None
 \* the client has read its response; v is the logged view [st, from, e, a, n, complete, junk, bodyClass]
+Translated(route) == route \in {"anthropic", "anthropic_stream"}
+PromptMs == 3000       \* C05: a failure is reported without waiting for any configured timeout
 ClientDone(r, v) ==
     /\ r \in Reqs /\ RespKind(r) # None
     /\ LET q == rq[r] IN
-       CASE RespKind(r) = "full" ->
+       CASE RespKind(r) = "full" /\ ~Translated(q.route) ->
                /\ v.from /\ v.e = q.cur /\ v.a = q.att      \* C02: headers and every byte from ONE attempt
                /\ v.st = q.pst /\ v.complete /\ v.n = q.pn /\ v.junk = q.pb /\ v.mixed = FALSE
-         [] RespKind(r) = "partial" ->
+         [] RespKind(r) = "full" /\ Translated(q.route) ->
+               \* the body is a translation (C13 judges its content); C05: the backend's status survives,
+               \* and an error answer is an Anthropic error object
+               /\ v.st = q.pst /\ v.bodyClass # "empty"
+         [] RespKind(r) = "partial" /\ ~Translated(q.route) ->
                /\ v.from /\ v.e = q.cur /\ v.a = q.att
                \* a prefix of that attempt's body; whether the truncation is visible in the framing is not
                \* something the properties state, so v.complete is left free
                /\ v.st = q.pst /\ v.n <= q.pk /\ v.mixed = FALSE
                /\ v.junk < TokenLen      \* at most a torn token; never text of olla's own making
+         [] RespKind(r) = "partial" /\ Translated(q.route) -> TRUE
          [] RespKind(r) = "error" ->                       \* C05: a failure is reported as a failure
                /\ ~v.from /\ v.st >= 400 /\ v.n = 0 /\ v.bodyClass # "empty"
-               /\ (q.route = "anthropic" => v.bodyClass = "anthropic_error")
+               /\ (Translated(q.route) => v.bodyClass = "anthropic_error")
+               /\ v.ms < PromptMs
     /\ rq' = [rq EXCEPT ![r] = [@ EXCEPT !.phase = "done", !.last = RespKind(r)]]
-    /\ UNCHANGED <<engine, status, down, ebFail, ebOpen, gauge, cnt>>
+    /\ UNCHANGED <<engine, status, down, models, ebFail, ebOpen, gauge, cnt>>
 
 -----------------------------------------------------------------------------
 (* MC: the environment picks kinds; the client view is the one the spec itself prescribes *)
 SpecView(r) == LET q == rq[r] IN
     CASE RespKind(r) = "full"    -> [from |-> TRUE, e |-> q.cur, a |-> q.att, st |-> q.pst, complete |-> TRUE,
-                                     n |-> q.pn, junk |-> q.pb, mixed |-> FALSE, bodyClass |-> "tokens"]
+                                     n |-> q.pn, junk |-> q.pb, mixed |-> FALSE, bodyClass |-> "tokens", ms |-> 1]
       [] RespKind(r) = "partial" -> [from |-> TRUE, e |-> q.cur, a |-> q.att, st |-> q.pst, complete |-> FALSE,
-                                     n |-> q.pk, junk |-> 0, mixed |-> FALSE, bodyClass |-> "tokens"]
+                                     n |-> q.pk, junk |-> 0, mixed |-> FALSE, bodyClass |-> "tokens", ms |-> 1]
       [] OTHER                   -> [from |-> FALSE, e |-> None, a |-> 0, st |-> 502, complete |-> TRUE,
-                                     n |-> 0, junk |-> 1, mixed |-> FALSE,
-                                     bodyClass |-> IF q.route = "anthropic" THEN "anthropic_error" ELSE "text"]
+                                     n |-> 0, junk |-> 1, mixed |-> FALSE, ms |-> 1,
+                                     bodyClass |-> IF Translated(q.route) THEN "anthropic_error" ELSE "text"]
 Next ==
     \/ \E e \in EP : \E d \in BOOLEAN : SetDown(e, d) /\ scn' = Append(scn, <<"SetDown", e, d>>)
     \/ \E e \in EP : HealthStore(e, IF down[e] THEN "offline" ELSE "healthy") /\ status[e] # (IF down[e] THEN "offline" ELSE "healthy")
                      /\ scn' = Append(scn, <<"Health", e>>)
-    \/ \E r \in REQ : Arrive(r, "proxy") /\ scn' = Append(scn, <<"Arrive", r>>)
+    \/ \E r \in REQ : Arrive(r, "proxy", "m1") /\ scn' = Append(scn, <<"Arrive", r>>)
     \/ \E r \in Reqs : \E e \in EP : \E k \in Kinds :
            AttemptStart(r, e, k, IF k = "http" THEN 500 ELSE 200, IF k = "http" THEN 0 ELSE 3, 1, IF k = "http" THEN 7 ELSE 0, "s") /\ scn' = Append(scn, <<"Plan", r, e, k>>)
     \/ \E r \in Reqs : AttemptEnd(r) /\ UNCHANGED scn
@@ -216,5 +227,5 @@ TypeOK == /\ \A e \in EP : gauge[e] \in Nat /\ ebFail[e] \in 0..EBThreshold
           /\ \A r \in Reqs : rq[r].phase \in {"choosing", "attempting", "responded", "truncated", "failed", "done"}
 
 MCConstraint == Len(scn) <= 9
-View == <<engine, status, down, ebFail, ebOpen, rq, gauge, cnt>>
+View == <<engine, status, down, models, ebFail, ebOpen, rq, gauge, cnt>>
 =============================================================================
